@@ -635,6 +635,51 @@ fn check_tuple(name: &str, shape: u8, o: &TupleOutcome) -> Option<(String, Strin
     }
 }
 
+/// Zero-sized marker states (several of them live at the same address) are distinct types like any other:
+/// a tuple of present, pairwise different marker types (alone or mixed with data-carrying types) is granted.
+mod zst {
+    use super::*;
+    macro_rules! marker { ($($n:ident),*) => { $(
+        #[derive(Tid, Clone, Debug, Default)]
+        pub struct $n;
+        impl CustomState<'_> for $n {}
+    )* } }
+    marker!(Z1, Z2, Z3);
+    pub fn check(shape: u8) -> Option<(String, String)> {
+        let mut reg = StateRegistry::new();
+        reg.insert(Z1);
+        reg.insert(A(1));
+        if shape >= 1 {
+            reg = reg.into_child();
+        }
+        reg.insert(Z2);
+        if shape >= 2 {
+            reg = reg.into_child();
+        }
+        reg.insert(Z3);
+        let ctx = |w: String| format!("multi-borrow of zero-sized marker states on registry shape {}: {}", shape, w);
+        let r = catch(|| {
+            let a = reg.try_get_multiple_mut::<(Z1, Z2)>().map(|_| ()).map_err(|e| e.to_string());
+            let b = reg.try_get_multiple_mut::<(Z3, Z1, Z2)>().map(|_| ()).map_err(|e| e.to_string());
+            let c = reg.try_get_multiple_mut::<(Z2, A)>().map(|(_, a)| **a).map_err(|e| e.to_string());
+            let d = reg.try_get_multiple_mut::<(Z1, Z1)>().map(|_| ()).map_err(|e| e.to_string());
+            (a, b, c, d)
+        });
+        match r {
+            Err(p) => Some(("C02 multi zero-sized panic".into(), ctx(p))),
+            Ok((a, b, c, d)) => {
+                if a.is_err() || b.is_err() || c != Ok(1) {
+                    return Some(("C02 multi zero-sized distinct error".into(), ctx(format!("(Z1,Z2): {:?}, (Z3,Z1,Z2): {:?}, (Z2,A): {:?}", a, b, c))));
+                }
+                if d.is_ok() {
+                    return Some(("C02 multi zero-sized duplicate granted".into(), ctx("(Z1,Z1) was granted".into())));
+                }
+                None
+            }
+        }
+    }
+}
+
 // ---------------------------------------------------------------------------------------------
 // 3. holding
 // ---------------------------------------------------------------------------------------------
@@ -699,6 +744,10 @@ fn nest(st: &mut St, levels: &[Level], depth: usize, seen: &mut Vec<(usize, u8)>
                 if l.act == 1 {
                     return Err(eyre::eyre!("fail@{}", depth));
                 }
+                if l.act == 3 {
+                    // while T is held the closure stores another T: the held object still goes back where it came from
+                    st.insert(<$T>::from(9));
+                }
                 nest(st, &rest, depth + 1, seen)?;
                 if l.act == 2 {
                     return Err(eyre::eyre!("fail@{}", depth));
@@ -737,6 +786,10 @@ fn hold_model(shape: u8, levels: &[Level]) -> (Vec<[Option<u8>; 2]>, Option<Stri
         let mut v = scopes[idx][t].take().unwrap();
         if l.write {
             v = 50 + depth as u8;
+        }
+        if l.act == 3 {
+            // the closure stores another value of the held type: it lands in the top scope
+            scopes[0][t] = Some(9);
         }
         let err = if l.act == 1 {
             Some(format!("fail@{}", depth))
@@ -815,16 +868,18 @@ fn all_nestings(max_depth: usize) -> Vec<Vec<Level>> {
         }
         for ty in 0..2u8 {
             for write in [false, true] {
-                for act in 0..3u8 {
+                for act in 0..4u8 {
                     // at most one failing closure per nesting, and nothing nests below a fail-before level
-                    if act != 0 && failed {
+                    // (act 3 does not fail: the closure stores a value of the held type)
+                    let fails = act == 1 || act == 2;
+                    if fails && failed {
                         continue;
                     }
                     if cur.last().map(|l| l.act == 1).unwrap_or(false) {
                         continue;
                     }
                     cur.push(Level { ty, write, act });
-                    rec(cur, max, failed || act != 0, out);
+                    rec(cur, max, failed || fails, out);
                     cur.pop();
                 }
             }
@@ -870,6 +925,14 @@ pub fn run(rep: &mut Report) {
         });
     }
     p.states = (super::c02_tuples::N_TUPLES * 2) as u64;
+    for shape in 0..3u8 {
+        p.transitions += 4;
+        p.traces += 1;
+        p.states += 1;
+        if let Some((sg, d)) = zst::check(shape) {
+            p.violate(sg, d, json!({"kind": "zst", "shape": shape}));
+        }
+    }
     p.bound("tuples", super::c02_tuples::N_TUPLES as u64).bound("registry_shapes", 3);
     p.require_outcomes(3);
     rep.push(p);
@@ -923,6 +986,7 @@ fn parse_bop(v: &Value) -> Result<BOp, String> {
 
 pub fn replay(case: &Value) -> Result<Vec<(String, String)>, String> {
     match case["kind"].as_str().unwrap_or("") {
+        "zst" => Ok(zst::check(case["shape"].as_u64().unwrap_or(0) as u8).into_iter().collect()),
         "borrow-history" => {
             let ops: Vec<BOp> = case["history"].as_array().ok_or("no history")?.iter().map(parse_bop).collect::<Result<_, _>>()?;
             let (last, hist) = ops.split_last().ok_or("empty")?;
